@@ -346,7 +346,13 @@ def run(shard, seed):
     tmpdir = tempfile.mkdtemp(prefix="c10-", dir=scratch_dir())
     try:
         first = True
+        held = {}          # what each file held before it was written again (files are re-used by name)
         for X, Y, metric, fmt in dataset(shard, seed):
+            before = held.get((metric, fmt))
+            held[(metric, fmt)] = X
+            n_before = len(res.violations)
+            if before is not None:
+                res.count("files_written_over_an_existing_file")
             try:
                 path = write_matrix(X, metric, fmt, tmpdir, DTYPE[0])
             except Exception as ex:
@@ -367,6 +373,8 @@ def run(shard, seed):
                 res.evaluations += 1
                 res.traces += 1
                 if v:
+                    if before is not None:
+                        v["program"] = dict(v["program"], file_held=before)
                     res.violations.append(v)
                     if res.full:
                         return res
@@ -388,9 +396,16 @@ def run(shard, seed):
                 if v:
                     res.violations.append(v)
                     if res.full:
-                        return res
+                        break
                     if v["fingerprint"].startswith("pre_compute_distance"):
                         break  # the file itself is unusable; every split repeats it
+            if before is not None:
+                # part of the history of these cases: the file existed, holding another matrix
+                for v in res.violations[n_before:]:
+                    if "file_held" not in v["program"]:
+                        v["program"] = dict(v["program"], file_held=before)
+            if res.full:
+                return res
     finally:
         shutil.rmtree(tmpdir, ignore_errors=True)
     return res
@@ -401,15 +416,21 @@ def replay(case):
     tmpdir = tempfile.mkdtemp(prefix="c10-", dir=scratch_dir())
     try:
         try:
+            if prog.get("file_held") is not None:
+                # the file already existed, holding the matrix of another dataset
+                write_matrix(prog["file_held"], prog["metric"], prog["fmt"], tmpdir, prog.get("dtype"))
             path = write_matrix(prog["data"], prog["metric"], prog["fmt"], tmpdir, prog.get("dtype"), prog.get("layout"))
         except Exception as ex:
             return viol(prog, "pre_compute_distance raised %r" % (ex,),
                         "raised %s (writing)" % type(ex).__name__)
         if prog.get("whole_file"):
-            return whole_file_case(prog, path)
-        v = compare_case(prog, path)
-        if v is None and prog["model"] == "SupervisedOPF":
-            v = distances_case(prog)
+            v = whole_file_case(prog, path)
+        else:
+            v = compare_case(prog, path)
+            if v is None and prog["model"] == "SupervisedOPF":
+                v = distances_case(prog)
+        if v is not None and prog.get("file_held") is not None:
+            v["program"] = dict(v["program"], file_held=prog["file_held"])
         return v
     finally:
         shutil.rmtree(tmpdir, ignore_errors=True)
